@@ -23,4 +23,7 @@ def run(tier):
     # clauses added for the wave-2 seeds (rules/wave2.py; DESIGN 12a)
     for _cfg, f in fx.items():
         wave3.no_exit_before_yield_rule(run, f, "C09-NO-EXIT-BEFORE-YIELD")
+    # clauses added for the wave-2 seeds (rules/wave2.py; DESIGN 12a)
+    for _cfg, f in fx.items():
+        wave3.suspender_popped_rule(run, f, "C09-SUSPENDER-POPPED")
     return run.finish()
